@@ -25,6 +25,10 @@ RULE = (
     "constant p with Dirichlet data c and Neumann data 0 gives zero flux. K-orthogonal class: diag(div*flux) > 0 for every "
     "cell with an interior or Dirichlet face, off-diagonal <= 0; flux and bound_flux equal those of pp.Mpfa (1e-10 "
     "relative; dim >= 2); with constant K the exact flux -(K a).n_f for p = c + a.x on every face (1e-9). "
+    "Periodic class (a quarter of the axis-aligned lattices of dim >= 2): one or two pairs of opposite sides joined with "
+    "Grid.set_periodic_map before the boundary conditions are made; the structural claims, the M-matrix pattern and "
+    "the agreement with Mpfa are asserted as for interior faces, plus: the outward fluxes of a periodic pair cancel; "
+    "linear exactness is not asserted there. "
     "Reuse class (a third of the cases): one Tpfa object discretises, then the same grid / tensor / bc objects are "
     "edited in place (per-axis scaling or, for axis-aligned lattices, random respacing of the nodes followed by "
     "compute_geometry(); tensor values overwritten; boundary types overwritten) and the same object discretises again, "
@@ -49,7 +53,7 @@ ASSUMPTIONS = [
     "K-orthogonal class = axis-aligned CartGrid / TensorGrid with diagonal tensor (scalar cell-wise heterogeneity allowed)",
     "MPFA agreement is checked for dim >= 2 only (in 1-d pp.Mpfa delegates to pp.Tpfa)",
 ]
-REQUIRED = {"scaled-small": 0.08, "scaled-large": 0.05, "graded": 0.02, "K-tiny": 0.1, "K-huge": 0.03, "reuse": 0.15, "reuse-moved-geometry": 0.08, "reuse-changed-tensor": 0.05, "reuse-changed-bc": 0.05,
+REQUIRED = {"periodic": 0.02, "periodic-heterogeneous": 0.012, "scaled-small": 0.08, "scaled-large": 0.05, "graded": 0.02, "K-tiny": 0.1, "K-huge": 0.03, "reuse": 0.15, "reuse-moved-geometry": 0.08, "reuse-changed-tensor": 0.05, "reuse-changed-bc": 0.05,
             "reuse-same-data": 0.05, "general": 0.3, "korth": 0.3, "dim1": 0.02, "dim2": 0.2, "dim3": 0.2, "heterogeneous": 0.2, "bc-mixed": 0.3,
             "mpfa-compared": 0.2, "linear-exact": 0.1, "kind-poly": 0.01, "kind-tri": 0.015, "kind-tet": 0.015}
 
@@ -68,6 +72,7 @@ def _spec(draw, tier):
                               affine=False, max_n3=2, max_n=4))
         K = draw(fv.spd_spec(kinds=("diag", "diag", "iso"), het=True, mags=True))
     grid = draw(fv.with_length_scale(grid))  # unit factors 1e-6..1e4, graded tensor grids
+    periodic = draw(fv.periodic_axes(grid))  # opposite sides joined by Grid.set_periodic_map
     # reuse class: one Tpfa object discretises twice, the inputs are edited in place in between (see gen/fv.py)
     reuse = None
     if draw(st.integers(0, 2)) == 0:
@@ -75,7 +80,7 @@ def _spec(draw, tier):
         reuse = draw(fv.reuse_spec(grid, tensor_kinds=kinds, het=True, mags=True))
         if mode == "korth" and reuse["move"] == "scale" and draw(st.booleans()):
             reuse["move"] = "respace"
-    return {"mode": mode, "grid": grid, "K": K, "bc": draw(fv.bc_spec()), "field": draw(fv.field_spec(length=grid.get("scale") or 1.0)), "reuse": reuse}
+    return {"mode": mode, "grid": grid, "K": K, "bc": draw(fv.bc_spec()), "field": draw(fv.field_spec(length=grid.get("scale") or 1.0)), "reuse": reuse, "periodic": periodic}
 
 
 def strategy(tier):
@@ -86,7 +91,7 @@ def warmup():
     fv.warmup_flow()
 
 
-def _structure(g, flux, bound_flux, is_dir):
+def _structure(g, flux, bound_flux, is_dir, pmap=None):
     """Row structure of the TPFA matrices (single-valued, conservative face fluxes)."""
     F = flux.tocsr()
     B = bound_flux.tocsr()
@@ -96,6 +101,11 @@ def _structure(g, flux, bound_flux, is_dir):
     scale = max(float(np.abs(F.data).max()) if F.nnz else 0.0, 1e-300)
     tol = 1e-12 * scale
     nbr = abs(g.cell_faces).tocsr()  # face -> its cells
+    if pmap is not None:
+        # a periodic face is also connected to the cell of its partner face
+        P = sps.coo_matrix((np.ones(2 * pmap.shape[1]), (np.r_[pmap[0], pmap[1]], np.r_[pmap[1], pmap[0]])),
+                           shape=(g.num_faces, g.num_faces)).tocsr()
+        nbr = (nbr + P @ nbr).tocsr()
     # non-zeros of flux only at the cells of the face
     outside = abs(F) - abs(F).multiply(nbr)
     require(outside.nnz == 0 or np.abs(outside.data).max() <= tol, "flux-stencil",
@@ -113,6 +123,12 @@ def _structure(g, flux, bound_flux, is_dir):
     # Dirichlet rows balance: flux = t (p_c - p_b)
     require(np.all(np.abs(rowsum[is_dir] + Bd[is_dir]) <= tol), "dirichlet-balance",
             lambda: f"flux[f,c] + bound_flux[f,f] max {np.abs(rowsum[is_dir] + Bd[is_dir]).max():.3e}")
+    if pmap is not None:
+        # single-valued flux across a periodic pair: what leaves through one face enters through its partner
+        sg = np.asarray(g.cell_faces.tocsr().sum(axis=1)).ravel()  # sign of the only cell of a side face
+        D = (sps.diags(sg[pmap[0]]) @ F[pmap[0]] + sps.diags(sg[pmap[1]]) @ F[pmap[1]]).tocsr()
+        require(D.nnz == 0 or np.abs(D.data).max() <= tol, "periodic-single-valued",
+                lambda: f"outward fluxes of a periodic pair do not cancel: max {np.abs(D.data).max():.3e} (scale {scale:.3e})")
     return scale
 
 
@@ -121,6 +137,7 @@ def check(spec):
     meta = grid_meta(spec["grid"])
     import porepy as pp
 
+    pmap = fv.apply_periodic(g, spec["periodic"]) if spec.get("periodic") else None
     K, Km, fac = fv.build_tensor(spec["K"], g)
     bc, is_dir = fv.build_bc(spec["bc"], g)
     ts, bs = spec["K"], spec["bc"]
@@ -145,7 +162,13 @@ def check(spec):
     if het:
         labels.append("heterogeneous")
 
-    scale = _structure(g, flux, bflux, is_dir)
+    if pmap is not None:
+        labels.append("periodic")
+        w = np.linalg.norm(g.face_centers[:, pmap[0]] - g.cell_centers[:, abs(g.cell_faces).tocsr()[pmap[0]].indices], axis=0)
+        w2 = np.linalg.norm(g.face_centers[:, pmap[1]] - g.cell_centers[:, abs(g.cell_faces).tocsr()[pmap[1]].indices], axis=0)
+        if het or not np.allclose(w, w2, rtol=1e-6, atol=0.0):
+            labels.append("periodic-heterogeneous")  # permeability or cell size differs across the periodic pair
+    scale = _structure(g, flux, bflux, is_dir, pmap)
 
     # symmetry of the cell-cell operator
     div = g.cell_faces.T.tocsr()
@@ -183,7 +206,7 @@ def check(spec):
             s2 = max(float(abs(bflux).max()), float(abs(Mm["bound_flux"]).max()), 1e-300)
             require_close(bflux.toarray(), Mm["bound_flux"].toarray(), "mpfa-bound-flux", rtol=1e-10 * cf, atol=0.0, scale=s2,
                           what="Tpfa bound_flux vs Mpfa bound_flux")
-        if not het:
+        if not het and pmap is None:  # (a linear field is not periodic)
             labels.append("linear-exact")
             check_linear_exactness(g, M, Km, fs, is_dir, tag="korth-")
 
